@@ -127,6 +127,13 @@ Lemma start_step_G c s pc ch : G s ->
 Proof.
   intros HG. destruct (start_step c s pc ch) eqn:H; [| |exact I];
     destruct pc; simpl in H; split_hyp H; g_tac HG.
+  all: match goal with
+       | E : src_open _ && onat_eqb (s_guard ?s0) (Some ?r0) = true, Hj : src_open (s_runs ?s0 ?j) = true,
+         E2 : (?j =? ?r0) = false |- _ =>
+           apply andb_true_iff in E; destruct E as [_ E]; apply onat_eqb_eq in E;
+           specialize (HG _ Hj); rewrite E in HG; inversion HG; subst;
+           rewrite Nat.eqb_refl in E2; discriminate E2
+       end.
 Qed.
 
 Lemma clean_step_G c s i ch s' l : G s -> clean_step c s i ch = Some (s', l) -> G s'.
